@@ -1,6 +1,7 @@
 package props
 
 import (
+	"os"
 	"fmt"
 	"go/token"
 	"go/types"
@@ -67,7 +68,7 @@ func boundsKey(ob *an.BoundOb, seen map[string]int) string {
 
 // Constructs whose safety rests on a non-linear (counting) invariant, one line of reason each.
 var c18BoundsExceptions = map[string]string{
-	"(*client/network.OneConnection).ProcessCmpctBlock|pl[shortidx_idx : shortidx_idx+6]": "counting invariant: exactly shortidscnt slots of col.Txs are not prefilled (prefilled indices strictly increase and are < len(col.Txs) = prefilledcnt+shortidscnt), and the first loop length-checked 6*shortidscnt bytes from shortidx_idx (those checks are themselves obligations of this rule)",
+	"(*client/network.OneConnection).ProcessCmpctBlock|param#1.pl[phi:(phi + 6)]": "counting invariant: exactly shortidscnt slots of col.Txs are not prefilled (prefilled indices strictly increase and are < len(col.Txs) = prefilledcnt+shortidscnt), and the first loop length-checked 6*shortidscnt bytes from shortidx_idx (those checks are themselves obligations of this rule)",
 }
 
 func checkC18(r *core.Run) {
@@ -131,9 +132,12 @@ func checkC18(r *core.Run) {
 		where := p.Pos(an.InstrPos(ob.Instr))
 		if ob.Proven {
 			r.OK("R-C18-bounds", key, where, ob.Need)
-		} else if why, ok := c18BoundsExceptions[core.FuncName(ob.Fn)+"|"+ob.Expr]; ok {
+		} else if why, ok := c18BoundsExceptions[core.FuncName(ob.Fn)+"|"+an.CanonInstr(ob.Instr)]; ok {
 			r.OK("R-C18-bounds", key, where, "excepted construct: "+why)
 		} else {
+			if os.Getenv("GCV_DBGKEYS") != "" {
+				fmt.Println("CKEY", core.FuncName(ob.Fn)+"|"+an.CanonInstr(ob.Instr))
+			}
 			r.Fail("R-C18-bounds", key, where, "cannot prove "+ob.Need+" for "+ob.Expr+" (chain: "+strings.Join(ob.Chain, " -> ")+")", ob.Facts...)
 		}
 	}
@@ -144,10 +148,10 @@ func checkC18(r *core.Run) {
 // lockException: explicit internal-assertion panics under a lock. Each entry names one construct
 // (function, lock) and the invariant that makes the panic unreachable from peer input.
 var c18LockExceptions = map[string]string{
-	"(*client/network.OneConnection).FetchMessage|panic-held|c.Mutex":                    "assertion hdr_len <= 24: SockRead fills hdr[hdr_len:24], so n <= 24-hdr_len",
+	"(*client/network.OneConnection).FetchMessage|panic-held|$.Mutex":                    "assertion hdr_len <= 24: SockRead fills hdr[hdr_len:24], so n <= 24-hdr_len",
 	"client/network.CachedBlocksDel|panic-held|client/network.CachedBlocksMutex":         "assertion on the node's own cache index (idx within CachedBlocks, sizes consistent); arguments come from the node's own bookkeeping, not from peer bytes",
-	"(*lib/chain.BlockDB).BlockInvalid|panic-held|db.mutex":                              "assertion: a block already marked trusted is never invalidated (trusted is set only after full validation)",
-	"(*lib/chain.BlockDB).writeOne|panic-held|db.disk_access":                            "local disk write failure: the node deliberately stops (not peer-controlled)",
+	"(*lib/chain.BlockDB).BlockInvalid|panic-held|$.mutex":                              "assertion: a block already marked trusted is never invalidated (trusted is set only after full validation)",
+	"(*lib/chain.BlockDB).writeOne|panic-held|$.disk_access":                            "local disk write failure: the node deliberately stops (not peer-controlled)",
 	"(*client/network.OneConnection).ProcessCmpctBlock|panic-held|client/txpool.TxMutex": "assertion: every non-prefilled slot has a short id registered by the first loop over the same payload",
 }
 
@@ -165,7 +169,7 @@ func c18Locks(r *core.Run, p *core.Program, run *ssa.Function) {
 		if !reach[rep.Fn] {
 			continue
 		}
-		key := core.FuncName(rep.Fn) + "|" + rep.Kind + "|" + rep.Lock
+		key := core.FuncName(rep.Fn) + "|" + rep.Kind + "|" + c18LockName(rep.Lock)
 		if seen[key] {
 			continue
 		}
@@ -399,4 +403,14 @@ func c18Rings(r *core.Run, p *core.Program) {
 	}
 	sort.Strings(bad)
 	r.Check(len(bad) == 0 && n >= 3, rule, "ring-cursors", "-", fmt.Sprintf("%d uses of a ring cursor, each after its wrap test with wrap constant + increments <= capacity", n), strings.Join(bad, "; "))
+}
+
+// c18LockName: a lock reached through a parameter or the receiver is named "$.field" in obligation keys -
+// what the receiver is called in the source does not matter; package-level locks keep their path.
+func c18LockName(l string) string {
+	i := strings.Index(l, ".")
+	if i <= 0 || strings.Contains(l[:i], "/") {
+		return l
+	}
+	return "$" + l[i:]
 }
